@@ -277,7 +277,7 @@ class Ctx:
         for si in range(0, len(cases), shard):
             name = f"cases_{tag}_{si // shard}.v"
             with open(os.path.join(self.dir, name), "w") as f:
-                f.write("From Coq Require Import ZArith List Bool String Floats.PrimFloat.\n")
+                f.write("From Coq Require Import String ZArith List Bool Floats.PrimFloat.\n")
                 f.write(f"From Sketchnu Require Import {imports}.\n")
                 f.write("Import ListNotations.\nOpen Scope Z_scope.\n")
                 f.write(prelude + "\n")
@@ -310,7 +310,7 @@ class Ctx:
     def coq_show(self, tag, imports, term, prelude=""):
         name = f"show_{tag}.v"
         with open(os.path.join(self.dir, name), "w") as f:
-            f.write("From Coq Require Import ZArith List Bool String Floats.PrimFloat.\n")
+            f.write("From Coq Require Import String ZArith List Bool Floats.PrimFloat.\n")
             f.write(f"From Sketchnu Require Import {imports}.\n")
             f.write("Import ListNotations.\nOpen Scope Z_scope.\n" + prelude + "\n")
             f.write(f"Eval vm_compute in ({term}).\n")
